@@ -115,6 +115,19 @@ macro_rules! fakes_u32_bool {
 }
 fakes_u32_bool!(fk1 = 1, fk2 = 2, fk3 = 3);
 
+pub use crate::sig::fam::Wide2;
+#[inline(never)]
+pub fn fk_wrong_sig_wide(x: Wide2) -> bool {
+    black_box(x.0);
+    LAST.store(298, SeqCst);
+    true
+}
+#[inline(never)]
+pub fn fk_wrong_sig_widep(x: *const Wide2) -> bool {
+    black_box(x);
+    LAST.store(297, SeqCst);
+    true
+}
 #[inline(never)]
 pub fn fk_wrong_sig(x: u64) -> bool {
     black_box(x);
@@ -303,8 +316,16 @@ impl Pool for RustPool {
                     SITE_FAKE[s.site - 1].store(s.k() as u32, SeqCst);
                     inj.when_called(injectorpp::func!(t, fn(u32) -> bool)).will_execute(counted_site_wrong_sig(s.site - 1));
                 } else {
-                    inj.when_called(injectorpp::func!(t, fn(u32) -> bool))
-                        .will_execute_raw(injectorpp::func!(fk_wrong_sig, fn(u64) -> bool));
+                    // three replacements of another type: a short one, and two whose rendered type is long and made of two-byte
+                    // characters (by value / behind a pointer: the refusal's message must cope with both)
+                    match (s.f + s.k()) % 3 {
+                        0 => inj.when_called(injectorpp::func!(t, fn(u32) -> bool))
+                            .will_execute_raw(injectorpp::func!(fk_wrong_sig, fn(u64) -> bool)),
+                        1 => inj.when_called(injectorpp::func!(t, fn(u32) -> bool))
+                            .will_execute_raw(injectorpp::func!(fk_wrong_sig_wide, fn(Wide2) -> bool)),
+                        _ => inj.when_called(injectorpp::func!(t, fn(u32) -> bool))
+                            .will_execute_raw(injectorpp::func!(fk_wrong_sig_widep, fn(*const Wide2) -> bool)),
+                    }
                 }
                 return;
             }
